@@ -4,25 +4,37 @@ namespace Sema.C14
 
 variable {N K : Type} [DecidableEq N] [DecidableEq K]
 
-/-- `ro` / `fo`: the records / shard files that existed when the server list changed (ghost). -/
+/-- `ro` / `fo` (ghost): the current content of every record / shard file — as it was when the server
+list changed and, in a history with client writes, as it was last written through the cluster.
+Only the nodes started in the current epoch (`cfg.up`) take part; a switched-off node may hold
+anything (older copies included), and so may the routing owner (an older copy there is replaced by
+the transfer of the current one). -/
 structure Inv (cfg : Cfg N K) (ro fo : K → Option Content) (s : St N K) : Prop where
-  /-- every copy of a record is the original -/
-  r1 : ∀ n k v, s.recs n k = some v → ro k = some v
-  /-- no record is lost -/
-  r2 : ∀ k v, ro k = some v → ∃ n, s.recs n k = some v
-  /-- a confirmed record is stored at its owner, and the owner is somebody else -/
-  r3 : ∀ n k, s.rconf n k = true → n ≠ cfg.owner k ∧ (s.recs (cfg.owner k) k).isSome
-  /-- a copy of a shard file outside its owner is the complete original -/
-  f1 : ∀ n k c, s.files n k = some c → n ≠ cfg.fowner k → fo k = some c
+  /-- a copy of a record on a started node other than the owner is the current record -/
+  r1 : ∀ n k v, cfg.up n = true → n ≠ cfg.owner k → s.recs n k = some v → ro k = some v
+  /-- no record is lost: the current record is on a started node -/
+  r2 : ∀ k v, ro k = some v → ∃ n, cfg.up n = true ∧ s.recs n k = some v
+  /-- a confirmed record is still at the sender, the owner is somebody else, runs, and holds the
+  current record -/
+  r3 : ∀ n k, s.rconf n k = true → cfg.up n = true ∧ n ≠ cfg.owner k ∧ cfg.up (cfg.owner k) = true ∧
+        (s.recs n k).isSome ∧ s.recs (cfg.owner k) k = ro k
+  /-- a copy of a shard file on a started node other than the owner is the complete current file -/
+  f1 : ∀ n k c, cfg.up n = true → n ≠ cfg.fowner k → s.files n k = some c → fo k = some c
   /-- no shard file is lost -/
-  f2 : ∀ k c, fo k = some c → ∃ n, s.files n k = some c
-  /-- the source directory is removed only when the owner holds the complete original -/
+  f2 : ∀ k c, fo k = some c → ∃ n, cfg.up n = true ∧ s.files n k = some c
+  /-- the source directory is removed only when the owner (which runs) holds the complete current file -/
   f3 : ∀ n k, s.fph n k = .confirmed →
-        n ≠ cfg.fowner k ∧ (s.files n k).isSome ∧ s.files (cfg.fowner k) k = fo k ∧ (fo k).isSome
-  /-- at most one node other than the owner holds a shard -/
-  f4 : ∀ n n' k, n ≠ cfg.fowner k → n' ≠ cfg.fowner k → (s.files n k).isSome → (s.files n' k).isSome → n = n'
-  /-- nothing but (pieces of) known shards exists -/
-  f5 : ∀ n k, (s.files n k).isSome → (fo k).isSome
+        cfg.up n = true ∧ n ≠ cfg.fowner k ∧ (s.files n k).isSome ∧ s.files (cfg.fowner k) k = fo k ∧
+        cfg.up (cfg.fowner k) = true
+  /-- at most one started node other than the owner holds a shard -/
+  f4 : ∀ n n' k, cfg.up n = true → cfg.up n' = true → n ≠ cfg.fowner k → n' ≠ cfg.fowner k →
+        (s.files n k).isSome → (s.files n' k).isSome → n = n'
+
+/-- within one epoch without client writes and with nothing out of date to begin with: EVERY copy
+of a record is the original and nothing but (pieces of) known shards exists -/
+structure Strict (ro fo : K → Option Content) (s : St N K) : Prop where
+  r : ∀ n k v, s.recs n k = some v → ro k = some v
+  f : ∀ n k, (s.files n k).isSome → (fo k).isSome
 
 /-- what the checksum is assumed to do (explicit hypotheses, never axioms) -/
 structure SumOK (cfg : Cfg N K) : Prop where
@@ -32,7 +44,7 @@ structure SumOK (cfg : Cfg N K) : Prop where
 omit [DecidableEq K] in
 theorem inv_clear {cfg : Cfg N K} {ro fo} {s : St N K} (h : Inv cfg ro fo s) (n : N) (b : Bool) :
     Inv cfg ro fo (clearVolatile s n b) := by
-  refine ⟨h.r1, h.r2, ?_, h.f1, h.f2, ?_, h.f4, h.f5⟩
+  refine ⟨h.r1, h.r2, ?_, h.f1, h.f2, ?_, h.f4⟩
   · intro n' k hc
     simp only [clearVolatile] at hc
     split at hc
@@ -44,229 +56,247 @@ theorem inv_clear {cfg : Cfg N K} {ro fo} {s : St N K} (h : Inv cfg ro fo s) (n 
     · simp at hc
     · exact h.f3 n' k hc
 
+omit [DecidableEq K] in
+/-- what `enabled` says about `rsend` -/
+theorem rsend_enabled {cfg : Cfg N K} {s : St N K} {src dst : N} {batch : List K} {ok : Bool}
+    (hen : enabled cfg s (.rsend src dst batch ok) = true) :
+    cfg.up src = true ∧ cfg.up dst = true ∧ src ≠ dst ∧
+      ∀ k ∈ batch, cfg.owner k = dst ∧ (s.recs src k).isSome := by
+  simp only [enabled, decide_eq_true_eq, Bool.and_eq_true, List.all_eq_true, Bool.decide_and] at hen
+  obtain ⟨h1, h2, h3, h4⟩ := hen
+  exact ⟨h1, h2, h3, fun k hk => by have := h4 k hk; simpa using this⟩
+
 theorem inv_rsend {cfg : Cfg N K} {ro fo} {s : St N K} (h : Inv cfg ro fo s) (src dst : N) (batch : List K)
     (ok : Bool) (hen : enabled cfg s (.rsend src dst batch ok) = true) :
     Inv cfg ro fo (apply cfg s (.rsend src dst batch ok)) := by
-  simp only [enabled, decide_eq_true_eq, Bool.and_eq_true, List.all_eq_true, Bool.decide_and] at hen
-  obtain ⟨hne, hb⟩ := hen
-  have hb' : ∀ k ∈ batch, cfg.owner k = dst ∧ (s.recs src k).isSome := by
-    intro k hk; have := hb k hk; simpa using this
-  refine ⟨?_, ?_, ?_, h.f1, h.f2, h.f3, h.f4, h.f5⟩
-  · intro n k v hv
+  obtain ⟨hus, hud, hne, hb'⟩ := rsend_enabled hen
+  -- what the sender ships is the current record
+  have hcur : ∀ k ∈ batch, s.recs src k = ro k ∧ (ro k).isSome := by
+    intro k hk
+    obtain ⟨ho, hsome⟩ := hb' k hk
+    obtain ⟨v, hv⟩ := Option.isSome_iff_exists.mp hsome
+    have := h.r1 src k v hus (by rw [ho]; exact hne) hv
+    exact ⟨by rw [hv, this], by rw [this]; rfl⟩
+  refine ⟨?_, ?_, ?_, h.f1, h.f2, h.f3, h.f4⟩
+  · intro n k v hun hno hv
     simp only [apply] at hv
     split at hv
-    · exact h.r1 _ _ _ hv
-    · exact h.r1 _ _ _ hv
+    · rename_i hc
+      exact absurd (hc.1.trans (hb' k hc.2).1.symm) hno
+    · exact h.r1 _ _ _ hun hno hv
   · intro k v hro
-    obtain ⟨n, hn⟩ := h.r2 k v hro
-    refine ⟨n, ?_⟩
+    obtain ⟨n, hun, hn⟩ := h.r2 k v hro
+    refine ⟨n, hun, ?_⟩
     simp only [apply]
     split
     · rename_i hc
-      obtain ⟨v', hv'⟩ := Option.isSome_iff_exists.mp (hb' k hc.2).2
-      have := h.r1 _ _ _ hv'
-      rw [hv', ← this, hro]
+      rw [(hcur k hc.2).1, hro]
     · exact hn
   · intro n k hc
     simp only [apply] at hc ⊢
-    have howner : cfg.owner k = dst ∧ k ∈ batch → (s.recs src k).isSome := fun hh => (hb' k hh.2).2
     split at hc
     · rename_i hcc
       obtain ⟨hn, hk, _⟩ := hcc
       have ho := (hb' k hk).1
       subst hn
-      refine ⟨by rw [ho]; exact hne, ?_⟩
-      simp [ho, hk, (hb' k hk).2]
-    · obtain ⟨h1, h2⟩ := h.r3 n k hc
-      refine ⟨h1, ?_⟩
-      split
-      · rename_i hcc; exact (hb' k hcc.2).2
-      · exact h2
+      refine ⟨hus, by rw [ho]; exact hne, by rw [ho]; exact hud, ?_, ?_⟩
+      · rw [if_neg (by rintro ⟨e, _⟩; exact hne e)]; exact (hb' k hk).2
+      · rw [if_pos ⟨ho, hk⟩]; exact (hcur k hk).1
+    · obtain ⟨h1, h2, h3, h4, h5⟩ := h.r3 n k hc
+      refine ⟨h1, h2, h3, ?_, ?_⟩
+      · rw [if_neg (by rintro ⟨e, hk⟩; exact h2 (e.trans (hb' k hk).1.symm))]; exact h4
+      · split
+        · rename_i hcc; exact (hcur k hcc.2).1
+        · exact h5
 
 theorem inv_rdelete {cfg : Cfg N K} {ro fo} {s : St N K} (h : Inv cfg ro fo s) (src : N) (batch : List K)
     (hen : enabled cfg s (.rdelete src batch) = true) :
     Inv cfg ro fo (apply cfg s (.rdelete src batch)) := by
   simp only [enabled, List.all_eq_true] at hen
-  refine ⟨?_, ?_, ?_, h.f1, h.f2, h.f3, h.f4, h.f5⟩
-  · intro n k v hv
+  refine ⟨?_, ?_, ?_, h.f1, h.f2, h.f3, h.f4⟩
+  · intro n k v hun hno hv
     simp only [apply] at hv
     split at hv
     · simp at hv
-    · exact h.r1 _ _ _ hv
+    · exact h.r1 _ _ _ hun hno hv
   · intro k v hro
-    obtain ⟨n, hn⟩ := h.r2 k v hro
+    obtain ⟨n, hun, hn⟩ := h.r2 k v hro
     by_cases hc : n = src ∧ k ∈ batch
-    · obtain ⟨h1, h2⟩ := h.r3 src k (hen k hc.2)
-      obtain ⟨v', hv'⟩ := Option.isSome_iff_exists.mp h2
-      have := h.r1 _ _ _ hv'
-      refine ⟨cfg.owner k, ?_⟩
+    · obtain ⟨_, h1, h2, _, h4⟩ := h.r3 src k (hen k hc.2)
+      refine ⟨cfg.owner k, h2, ?_⟩
       simp only [apply]
-      rw [if_neg (by intro hh; exact h1 hh.1.symm), hv', ← this, hro]
-    · exact ⟨n, by simp only [apply]; rw [if_neg hc]; exact hn⟩
+      rw [if_neg (by intro hh; exact h1 hh.1.symm), h4, hro]
+    · exact ⟨n, hun, by simp only [apply]; rw [if_neg hc]; exact hn⟩
   · intro n k hc
     simp only [apply] at hc ⊢
     split at hc
     · simp at hc
-    · obtain ⟨h1, h2⟩ := h.r3 n k hc
-      refine ⟨h1, ?_⟩
-      rw [if_neg]
-      · exact h2
-      · intro hh
-        exact (h.r3 src k (hen k hh.2)).1 hh.1.symm
+    · rename_i hnb
+      obtain ⟨h1, h2, h3, h4, h5⟩ := h.r3 n k hc
+      refine ⟨h1, h2, h3, ?_, ?_⟩
+      · rw [if_neg hnb]; exact h4
+      · rw [if_neg]
+        · exact h5
+        · intro hh
+          exact (h.r3 src k (hen k hh.2)).2.1 hh.1.symm
 
-/-- facts shared by `fchunk` and `ffinal`: the owner's file of shard `k` is overwritten by a node `src`
-that holds `k`, is not the owner, and is not in phase `confirmed` -/
+/-- facts shared by `fchunk` and `ffinal`: the owner's file of shard `k` is overwritten by a started node
+`src` that holds `k`, is not the owner, and is not in phase `confirmed` -/
 theorem inv_owner_write {cfg : Cfg N K} {ro fo} {s : St N K} (h : Inv cfg ro fo s) (src : N) (k : K)
-    (c w : Content) (hsrc : s.files src k = some c) (hne : src ≠ cfg.fowner k)
+    (c w : Content) (hsrc : s.files src k = some c) (hus : cfg.up src = true)
+    (huo : cfg.up (cfg.fowner k) = true) (hne : src ≠ cfg.fowner k)
     (hph : s.fph src k ≠ .confirmed) (fph' : N → K → Phase)
     (hfph : ∀ n k', fph' n k' = .confirmed → s.fph n k' = .confirmed ∨
         (n = src ∧ k' = k ∧ w = c)) :
     Inv cfg ro fo { s with files := upd s.files (cfg.fowner k) k (some w), fph := fph' } := by
-  have hfo : fo k = some c := h.f1 _ _ _ hsrc hne
+  have hfo : fo k = some c := h.f1 _ _ _ hus hne hsrc
   have hother : ∀ n k', ¬ (n = cfg.fowner k ∧ k' = k) → upd s.files (cfg.fowner k) k (some w) n k' = s.files n k' := by
     intro n k' hh; simp [upd, hh]
-  refine ⟨h.r1, h.r2, h.r3, ?_, ?_, ?_, ?_, ?_⟩
-  · intro n k' c' hc' hn
+  refine ⟨h.r1, h.r2, h.r3, ?_, ?_, ?_, ?_⟩
+  · intro n k' c' hun hn hc'
     have : ¬ (n = cfg.fowner k ∧ k' = k) := by rintro ⟨h1, h2⟩; subst h2; exact hn h1
     simp only [hother n k' this] at hc'
-    exact h.f1 _ _ _ hc' hn
+    exact h.f1 _ _ _ hun hn hc'
   · intro k' c' hfo'
     by_cases hk : k' = k
     · subst hk
-      refine ⟨src, ?_⟩
+      refine ⟨src, hus, ?_⟩
       simp only [hother src k' (by rintro ⟨h1, _⟩; exact hne h1)]
       rw [hsrc, ← hfo, hfo']
-    · obtain ⟨n, hn⟩ := h.f2 k' c' hfo'
-      exact ⟨n, by simp only [hother n k' (by rintro ⟨_, h2⟩; exact hk h2)]; exact hn⟩
+    · obtain ⟨n, hun, hn⟩ := h.f2 k' c' hfo'
+      exact ⟨n, hun, by simp only [hother n k' (by rintro ⟨_, h2⟩; exact hk h2)]; exact hn⟩
   · intro n k' hc
     rcases hfph n k' hc with hold | ⟨h1, h2, h3⟩
-    · obtain ⟨a1, a2, a3, a4⟩ := h.f3 n k' hold
+    · obtain ⟨a0, a1, a2, a3, a4⟩ := h.f3 n k' hold
       have hk : k' ≠ k := by
         intro e; subst e
-        have : n = src := h.f4 n src k' a1 hne a2 (by simp [hsrc])
+        have : n = src := h.f4 n src k' a0 hus a1 hne a2 (by simp [hsrc])
         subst this; exact hph hold
-      refine ⟨a1, ?_, ?_, a4⟩
+      refine ⟨a0, a1, ?_, ?_, a4⟩
       · simp only [hother n k' (by rintro ⟨_, h2⟩; exact hk h2)]; exact a2
       · simp only [hother (cfg.fowner k') k' (by rintro ⟨_, h2⟩; exact hk h2)]; exact a3
     · subst h1; subst h2; subst h3
-      refine ⟨hne, ?_, ?_, by simp [hfo]⟩
+      refine ⟨hus, hne, ?_, ?_, huo⟩
       · simp only [hother n k' (by rintro ⟨h1, _⟩; exact hne h1)]; simp [hsrc]
       · simp [upd, hfo]
-  · intro n n' k' hn hn' h1 h2
+  · intro n n' k' hun hun' hn hn' h1 h2
     simp only [hother n k' (by rintro ⟨a, b⟩; subst b; exact hn a)] at h1
     simp only [hother n' k' (by rintro ⟨a, b⟩; subst b; exact hn' a)] at h2
-    exact h.f4 n n' k' hn hn' h1 h2
-  · intro n k' hs
-    by_cases hh : n = cfg.fowner k ∧ k' = k
-    · rw [hh.2]; simp [hfo]
-    · simp only [hother n k' hh] at hs
-      exact h.f5 n k' hs
+    exact h.f4 n n' k' hun hun' hn hn' h1 h2
+
+omit [DecidableEq K] in
+/-- what `enabled` says about `fchunk` / `ffinal` -/
+theorem fchunk_enabled {cfg : Cfg N K} {s : St N K} {src : N} {k : K} {cor : Option Content}
+    (hen : enabled cfg s (.fchunk src k cor) = true) :
+    ∃ c i, s.files src k = some c ∧ progress (s.fph src k) = some i ∧ cfg.up src = true ∧
+      cfg.up (cfg.fowner k) = true ∧ src ≠ cfg.fowner k ∧ i < (chunks cfg.cs c).length := by
+  simp only [enabled] at hen
+  split at hen
+  · rename_i c i hc hp
+    simp only [decide_eq_true_eq, Bool.and_eq_true, Bool.decide_and] at hen
+    exact ⟨c, i, hc, hp, hen.1, hen.2.1, by simpa using hen.2.2.1, by simpa using hen.2.2.2⟩
+  · cases hen
+
+omit [DecidableEq K] in
+theorem ffinal_enabled {cfg : Cfg N K} {s : St N K} {src : N} {k : K}
+    (hen : enabled cfg s (.ffinal src k) = true) :
+    ∃ c i, s.files src k = some c ∧ progress (s.fph src k) = some i ∧ cfg.up src = true ∧
+      cfg.up (cfg.fowner k) = true ∧ src ≠ cfg.fowner k ∧ i = (chunks cfg.cs c).length := by
+  simp only [enabled] at hen
+  split at hen
+  · rename_i c i hc hp
+    simp only [decide_eq_true_eq, Bool.and_eq_true, Bool.decide_and] at hen
+    exact ⟨c, i, hc, hp, hen.1, hen.2.1, by simpa using hen.2.2.1, by simpa using hen.2.2.2⟩
+  · cases hen
 
 theorem inv_fchunk {cfg : Cfg N K} {ro fo} {s : St N K} (h : Inv cfg ro fo s) (src : N) (k : K)
     (cor : Option Content) (hen : enabled cfg s (.fchunk src k cor) = true) :
     Inv cfg ro fo (apply cfg s (.fchunk src k cor)) := by
-  simp only [enabled] at hen
-  simp only [apply]
-  split
-  · rename_i c i hc hp
-    rw [hc, hp] at hen
-    simp only [decide_eq_true_eq, Bool.and_eq_true, Bool.decide_and] at hen
-    have hne : src ≠ cfg.fowner k := by simpa using hen.1
-    apply inv_owner_write h src k c _ hc hne
-    · intro e; rw [e] at hp; simp [progress] at hp
-    · intro n k' hcf
-      left
-      simp only [upd] at hcf
-      split at hcf
-      · simp at hcf
-      · exact hcf
-  · exact h
+  obtain ⟨c, i, hc, hp, hus, huo, hne, _⟩ := fchunk_enabled hen
+  simp only [apply, hc, hp]
+  apply inv_owner_write h src k c _ hc hus huo hne
+  · intro e; rw [e] at hp; simp [progress] at hp
+  · intro n k' hcf
+    left
+    simp only [upd] at hcf
+    split at hcf
+    · simp at hcf
+    · exact hcf
 
 theorem inv_ffinal {cfg : Cfg N K} (hs : SumOK cfg) {ro fo} {s : St N K} (h : Inv cfg ro fo s) (src : N) (k : K)
     (hen : enabled cfg s (.ffinal src k) = true) :
     Inv cfg ro fo (apply cfg s (.ffinal src k)) := by
-  simp only [enabled] at hen
-  simp only [apply]
+  obtain ⟨c, i, hc, hp, hus, huo, hne, hi⟩ := ffinal_enabled hen
+  simp only [apply, hc, hp]
+  have hph : s.fph src k ≠ .confirmed := by intro e; rw [e] at hp; simp [progress] at hp
   split
-  · rename_i c i hc hp
-    rw [hc, hp] at hen
-    simp only [decide_eq_true_eq, Bool.and_eq_true, Bool.decide_and] at hen
-    have hne : src ≠ cfg.fowner k := by simpa using hen.1
-    have hi : i = (chunks cfg.cs c).length := by simpa using hen.2
-    have hph : s.fph src k ≠ .confirmed := by intro e; rw [e] at hp; simp [progress] at hp
-    split
-    · rename_i hsum
-      apply inv_owner_write h src k c _ hc hne hph
-      intro n k' hcf
-      simp only [upd] at hcf
-      split at hcf
-      · rename_i hh
-        right
-        refine ⟨hh.1, hh.2, ?_⟩
-        simp only [replySum, List.isEmpty_nil, and_true] at hsum
-        split at hsum
-        · exact (hs.inj _ _ hsum).symm
-        · rename_i hi0
-          have hi0 : i = 0 := by omega
-          have hcnil : c = [] := by
-            rcases Nat.eq_zero_or_pos (chunks cfg.cs c).length with hz | hpos
-            · false_or_by_contra
-              rename_i hcn
-              have := (chunks_length_pos cfg.cs c).mpr hcn
-              omega
-            · omega
-          rw [hcnil] at hsum
-          exact absurd hsum hs.empty_ne_zero
-      · left; exact hcf
-    · have := inv_owner_write h src k c (recvWrite cfg.trunc0 (s.files (cfg.fowner k) k) i []) hc hne hph s.fph
-        (fun n k' hcf => Or.inl hcf)
-      exact inv_clear this src true
-  · exact h
+  · rename_i hsum
+    apply inv_owner_write h src k c _ hc hus huo hne hph
+    intro n k' hcf
+    simp only [upd] at hcf
+    split at hcf
+    · rename_i hh
+      right
+      refine ⟨hh.1, hh.2, ?_⟩
+      simp only [replySum, List.isEmpty_nil, and_true] at hsum
+      split at hsum
+      · exact (hs.inj _ _ hsum).symm
+      · rename_i hi0
+        have hi0 : i = 0 := by omega
+        have hcnil : c = [] := by
+          rcases Nat.eq_zero_or_pos (chunks cfg.cs c).length with hz | hpos
+          · false_or_by_contra
+            rename_i hcn
+            have := (chunks_length_pos cfg.cs c).mpr hcn
+            omega
+          · omega
+        rw [hcnil] at hsum
+        exact absurd hsum hs.empty_ne_zero
+    · left; exact hcf
+  · have := inv_owner_write h src k c (recvWrite cfg.trunc0 (s.files (cfg.fowner k) k) i []) hc hus huo hne hph s.fph
+      (fun n k' hcf => Or.inl hcf)
+    exact inv_clear this src true
 
 theorem inv_fremove {cfg : Cfg N K} {ro fo} {s : St N K} (h : Inv cfg ro fo s) (src : N) (k : K)
     (hen : enabled cfg s (.fremove src k) = true) :
     Inv cfg ro fo (apply cfg s (.fremove src k)) := by
   simp only [enabled, decide_eq_true_eq] at hen
-  obtain ⟨a1, a2, a3, a4⟩ := h.f3 src k hen
+  obtain ⟨_, a1, a2, a3, a4⟩ := h.f3 src k hen
   have hother : ∀ n k', ¬ (n = src ∧ k' = k) → upd s.files src k none n k' = s.files n k' := by
     intro n k' hh; simp [upd, hh]
   simp only [apply]
-  refine ⟨h.r1, h.r2, h.r3, ?_, ?_, ?_, ?_, ?_⟩
-  · intro n k' c' hc' hn
+  refine ⟨h.r1, h.r2, h.r3, ?_, ?_, ?_, ?_⟩
+  · intro n k' c' hun hn hc'
     by_cases hh : n = src ∧ k' = k
     · simp [upd, hh] at hc'
-    · simp only [hother n k' hh] at hc'; exact h.f1 _ _ _ hc' hn
+    · simp only [hother n k' hh] at hc'; exact h.f1 _ _ _ hun hn hc'
   · intro k' c' hfo'
-    obtain ⟨n, hn⟩ := h.f2 k' c' hfo'
+    obtain ⟨n, hun, hn⟩ := h.f2 k' c' hfo'
     by_cases hh : n = src ∧ k' = k
     · obtain ⟨e1, e2⟩ := hh
       subst e1; subst e2
-      refine ⟨cfg.fowner k', ?_⟩
+      refine ⟨cfg.fowner k', a4, ?_⟩
       simp only [hother (cfg.fowner k') k' (by rintro ⟨e, _⟩; exact a1 e.symm)]
       rw [a3, hfo']
-    · exact ⟨n, by simp only [hother n k' hh]; exact hn⟩
+    · exact ⟨n, hun, by simp only [hother n k' hh]; exact hn⟩
   · intro n k' hc
     simp only [upd] at hc
     split at hc
     · simp at hc
     · rename_i hh
-      obtain ⟨b1, b2, b3, b4⟩ := h.f3 n k' hc
-      refine ⟨b1, ?_, ?_, b4⟩
+      obtain ⟨b0, b1, b2, b3, b4⟩ := h.f3 n k' hc
+      refine ⟨b0, b1, ?_, ?_, b4⟩
       · simp only [hother n k' hh]; exact b2
       · have : ¬ (cfg.fowner k' = src ∧ k' = k) := by
           rintro ⟨e1, e2⟩; subst e2; exact a1 e1.symm
         simp only [hother _ k' this]; exact b3
-  · intro n n' k' hn hn' h1 h2
+  · intro n n' k' hun hun' hn hn' h1 h2
     have g : ∀ m, (upd s.files src k none m k').isSome → (s.files m k').isSome := by
       intro m hm
       by_cases hh : m = src ∧ k' = k
       · simp [upd, hh] at hm
       · simpa only [hother m k' hh] using hm
-    exact h.f4 n n' k' hn hn' (g n h1) (g n' h2)
-  · intro n k' hs
-    by_cases hh : n = src ∧ k' = k
-    · simp [upd, hh] at hs
-    · simp only [hother n k' hh] at hs; exact h.f5 n k' hs
+    exact h.f4 n n' k' hun hun' hn hn' (g n h1) (g n' h2)
 
 /-- every event preserves the invariant -/
 theorem inv_step {cfg : Cfg N K} (hs : SumOK cfg) {ro fo} {s : St N K} (h : Inv cfg ro fo s) (l : Label N K) :
@@ -289,5 +319,84 @@ theorem inv_reachable {cfg : Cfg N K} (hs : SumOK cfg) {ro fo} {s0 s : St N K} (
   induction hr with
   | init => exact h0
   | step l _ ih => exact inv_step hs ih l
+
+omit [DecidableEq K] in
+/-- what the invariant says at the moment a source copy is removed -/
+theorem remove_only_after_confirm {cfg : Cfg N K} {ro fo : K → Option Content} {s : St N K} (i : Inv cfg ro fo s) :
+    (∀ src batch, enabled cfg s (.rdelete src batch) = true → ∀ k ∈ batch,
+        src ≠ cfg.owner k ∧ (ro k).isSome ∧ s.recs (cfg.owner k) k = ro k) ∧
+    (∀ src k, enabled cfg s (.fremove src k) = true →
+        src ≠ cfg.fowner k ∧ (fo k).isSome ∧ s.files (cfg.fowner k) k = fo k ∧ s.files src k = fo k) := by
+  constructor
+  · intro src batch hen k hk
+    simp only [enabled, List.all_eq_true] at hen
+    obtain ⟨a0, a1, _, a3, a4⟩ := i.r3 src k (hen k hk)
+    obtain ⟨v, hv⟩ := Option.isSome_iff_exists.mp a3
+    have := i.r1 _ _ _ a0 a1 hv
+    exact ⟨a1, by simp [this], a4⟩
+  · intro src k hen
+    simp only [enabled, decide_eq_true_eq] at hen
+    obtain ⟨a0, a1, a2, a3, _⟩ := i.f3 src k hen
+    obtain ⟨v, hv⟩ := Option.isSome_iff_exists.mp a2
+    have := i.f1 _ _ _ a0 a1 hv
+    exact ⟨a1, by simp [this], a3, by rw [hv, this]⟩
+
+/-! ### every copy is the original (one epoch, no client writes, nothing out of date at the start) -/
+
+omit [DecidableEq K] in
+theorem strict_clear {ro fo} {s : St N K} (h : Strict ro fo s) (n : N) (b : Bool) :
+    Strict ro fo (clearVolatile s n b) := ⟨h.r, h.f⟩
+
+theorem strict_step {cfg : Cfg N K} {ro fo} {s : St N K} (hi : Inv cfg ro fo s) (h : Strict ro fo s)
+    (l : Label N K) : Strict ro fo (step cfg l s) := by
+  unfold step
+  split
+  · rename_i hen
+    -- the owner's file of `k` is (over)written by a started node that holds the current file
+    have hw : ∀ (src : N) (k : K) (c w : Content), s.files src k = some c → cfg.up src = true →
+        src ≠ cfg.fowner k → ∀ n k', (upd s.files (cfg.fowner k) k (some w) n k').isSome → (fo k').isSome := by
+      intro src k c w hc hus hne n k' hs'
+      by_cases hh : n = cfg.fowner k ∧ k' = k
+      · rw [hh.2, hi.f1 _ _ _ hus hne hc]; rfl
+      · simp only [upd, hh, if_false] at hs'; exact h.f n k' hs'
+    cases l with
+    | rsend src dst batch ok =>
+      refine ⟨?_, h.f⟩
+      intro n k v hv
+      simp only [apply] at hv
+      split at hv <;> exact h.r _ _ _ hv
+    | rdelete src batch =>
+      refine ⟨?_, h.f⟩
+      intro n k v hv
+      simp only [apply] at hv
+      split at hv
+      · simp at hv
+      · exact h.r _ _ _ hv
+    | fchunk src k cor =>
+      obtain ⟨c, i, hc, hp, hus, _, hne, _⟩ := fchunk_enabled hen
+      simp only [apply, hc, hp]
+      exact ⟨h.r, hw src k c _ hc hus hne⟩
+    | ffinal src k =>
+      obtain ⟨c, i, hc, hp, hus, _, hne, _⟩ := ffinal_enabled hen
+      simp only [apply, hc, hp]
+      split
+      · exact ⟨h.r, hw src k c _ hc hus hne⟩
+      · exact ⟨h.r, hw src k c _ hc hus hne⟩
+    | fremove src k =>
+      refine ⟨h.r, ?_⟩
+      intro n k' hs'
+      simp only [apply, upd] at hs'
+      split at hs'
+      · simp at hs'
+      · exact h.f n k' hs'
+    | fail n => exact strict_clear h n true
+    | restart n => exact strict_clear h n false
+  · exact h
+
+theorem strict_reachable {cfg : Cfg N K} (hs : SumOK cfg) {ro fo} {s0 s : St N K} (h0 : Inv cfg ro fo s0)
+    (hst : Strict ro fo s0) (hr : Reachable cfg s0 s) : Strict ro fo s := by
+  induction hr with
+  | init => exact hst
+  | step l hr ih => exact strict_step (inv_reachable hs h0 hr) ih l
 
 end Sema.C14
